@@ -423,6 +423,15 @@ func cmdCheck(args []string) int {
 		fmt.Printf("  %s\n", e)
 		nObl++
 	}
+	bounded, bfail, brp := runBounded(*verif, *repo, *prop, *tier, outDir)
+	if bfail != "" {
+		violations++
+		suffix := ""
+		if strings.Contains(bfail, "did not run") {
+			suffix = " no-failing-input-found"
+		}
+		fmt.Printf("VIOLATION property=%s replay=%s%s\n  %s\n", *prop, brp, suffix, bfail)
+	}
 	sort.Slice(per, func(i, j int) bool { return per[i].Name < per[j].Name })
 	for i, r := range per {
 		if i < 12 {
@@ -459,6 +468,7 @@ func cmdCheck(args []string) int {
 		"known_findings_hit":       knownHit,
 		"observations_outside_property": observations,
 		"contract_files":           db.Files,
+		"bounded":                  bounded,
 		"arithmetic":               "Go integers are mathematical Int with type-range facts on every value read; see assumptions for per-function arith mode; float64 is Real",
 	}
 	if !*noEvidence {
